@@ -291,7 +291,8 @@ fn set_slot(sc: &mut Scenario, i: usize, kind: Kind, deps: &[usize]) {
 ///     skipped and U's dependants X, Z are skipped / delayed / on offer; P then fails, changes its
 ///     output (flaky), or succeeds. Extended form: a second Ephemeral E feeding Z and D2, so that E
 ///     is executed, finished and possibly offered for cleanup when the failure reaches Z
-///  1: a chain of three up-to-date Ephemerals above an Output whose other input changes late
+///  1: a chain of three to five up-to-date Ephemerals above an Output; an Always input that changes
+///     enters at the Output, or at the last or last-but-one Ephemeral (invalidated late)
 ///  2: an Ephemeral with two consumers, one of which has a second input that fails or changes
 ///     while the Ephemeral runs (concurrency)
 ///  3: a fan-in (several upstreams of one job decided within one round of signals)
@@ -308,9 +309,10 @@ fn plant_motif(sc: &mut Scenario, feat: u16, mv: u8) {
     let var = mv / 4;
     let extended = which == 0 && var & 8 != 0;
     let fan = 3 + (var & 1) as usize;
+    let chain_len = 3 + [0usize, 1, 2, 0][((var >> 1) & 3) as usize];
     let need = match which {
         0 => if extended { 8 } else { 6 },
-        1 => 6,
+        1 => chain_len + 3,
         2 => 4,
         _ => 2 + fan * if var & 2 == 0 { 3 } else { 1 },
     };
@@ -374,18 +376,31 @@ fn plant_motif(sc: &mut Scenario, feat: u16, mv: u8) {
             }
         }
         1 => {
+            // a chain of 3-5 up-to-date Ephemerals above an Output; the changing Always input
+            // enters at the Output (the chain becomes required late) or at the last / middle
+            // Ephemeral (which is invalidated late, after the ones above it were considered)
+            let len = chain_len;
             set_slot(sc, 0, Kind::Always, &[]);
             set_slot(sc, 1, Kind::Ephemeral, &[]);
-            set_slot(sc, 2, Kind::Ephemeral, &[1]);
-            set_slot(sc, 3, Kind::Ephemeral, &[2]);
-            set_slot(sc, 4, Kind::Output, &[0, 3]);
+            for k in 2..=len {
+                set_slot(sc, k, Kind::Ephemeral, &[k - 1]);
+            }
+            set_slot(sc, len + 1, Kind::Output, &[len]);
+            let entry = match (var >> 3) & 3 {
+                0 | 1 => len + 1,
+                2 => len,
+                _ => len - 1,
+            };
+            let mut d: Vec<usize> = vec![0];
+            d.extend(sc.init[entry].deps.iter().map(|x| x.0));
+            set_slot(sc, entry, sc.slots[entry].kind, &d);
             if var & 1 == 0 {
-                set_slot(sc, 5, Kind::Output, &[1]);
+                set_slot(sc, len + 2, Kind::Output, &[1]);
             }
             let st = &mut sc.steps[1];
             st.edits = vec![Edit::Bump(0)];
             st.plan.abort = None;
-            st.plan.fail &= !0b11111;
+            st.plan.fail &= !((1u32 << (len + 2)) - 1);
         }
         3 => {
             // fan-in: `fan` Output jobs below a common Always root and above a common sink, so that
